@@ -217,6 +217,16 @@ def check(ctx):
         if t == 'var_id':
             want = "struct.unpack('<H', pk.data[id_index:id_index + 2])[0]" if v2 else 'pk.data[0]'
         else:
+            # the payload slice may be bound to a local first: look through it, per protocol branch of the binding
+            v = x.ast.value
+            arg = v.value.args[1] if isinstance(v, ast.Subscript) and isinstance(v.value, ast.Call) and norm(v.value.func) == 'struct.unpack' and len(v.value.args) == 2 else None
+            if isinstance(arg, ast.Name) and norm(v) == 'struct.unpack(element.pytype, %s)[0]' % arg.id:
+                for d in g.reaching_defs(x, arg.id):
+                    dv2 = fact_key('self._useV2', True) in g.fact_keys_at(d)
+                    wantd = 'pk.data[id_index + 2:]' if dv2 else 'pk.data[1:]'
+                    ctx.inst('R7', pu, 'value[%s]' % ('V2' if dv2 else 'V1'), isinstance(d.ast, ast.Assign) and norm(d.ast.value) == wantd and
+                             (dv2 or fact_key('self._useV2', False) in g.fact_keys_at(d)), 'value payload is %s, expected %s' % (norm(d.ast.value), wantd))
+                continue
             want = 'struct.unpack(element.pytype, pk.data[id_index + 2:])[0]' if v2 else 'struct.unpack(element.pytype, pk.data[1:])[0]'
         ctx.inst('R7', pu, '%s[%s]' % (t, 'V2' if v2 else 'V1'), norm(x.ast.value) == want, '%s decoded as %s, expected %s' % (t, norm(x.ast.value), want))
     st = {norm(s.targets[0]): norm(s.value) for s in sorted([s for s in walk_own(pu.node) if isinstance(s, ast.Assign)], key=lambda s: s.lineno)}
